@@ -10,7 +10,8 @@ static vwin place(const pm *M, int pl) {
   case 0: return vw_make(M, 0, 0, 0, 0, 0, 0);
   case 1: return vw_make(M, 1, 1, 1, 1, 2, 1);
   case 2: return vw_make(M, 1, 2, 2, 0, 1, 2);
-  default: return vw_make(M, 1, 0, 0, 2, 0, 1);
+  case 3: return vw_make(M, 1, 0, 0, 2, 0, 1);
+  default: return vw_make(M, 1, 0, 0, -1, 0, 1); /* 4: view from column 0 whose parent has the same word width but more columns (ones there) */
   }
 }
 
@@ -18,12 +19,13 @@ static vwin place(const pm *M, int pl) {
 static void mode_pairs(void) {
   static const int RS[] = {1, 2, 5};
   int cols[160], nc = 0; for (int c = 1; c <= 130; c++) cols[nc++] = c; cols[nc++] = 191; cols[nc++] = 192; cols[nc++] = 193; cols[nc++] = 257;
-  for (int ri = 0; ri < 3; ri++) for (int ci = 0; ci < nc; ci++) for (int base = 0; base < 3; base++) for (int pl = 0; pl < 4; pl++) {
+  for (int ri = 0; ri < 3; ri++) for (int ci = 0; ci < nc; ci++) for (int base = 0; base < 3; base++) for (int pl = 0; pl < 5; pl++) for (int pl2 = 0; pl2 < 5; pl2++) {
     int r = RS[ri], c = cols[ci];
-    if (!vx_tier && ri == 1 && pl > 1) continue;
-    if (!vx_case_begin("pairs|%dx%d|base=%d|placement=%d", r, c, base, pl)) continue;
+    /* every ordered pair of placements on one row count, a rotating subset on the others */
+    if (ri != 0 && pl2 != (pl == 0 ? 0 : (pl % 4) + 1) && !(vx_tier && ri == 2)) continue;
+    if (!vx_case_begin("pairs|%dx%d|base=%d|placement=%d,%d", r, c, base, pl, pl2)) continue;
     pm *A = pm_pat(r, c, base == 0 ? (pat){P_Z, 0, 0} : base == 1 ? (pat){P_O, 0, 0} : (pat){P_PR, 0, 3});
-    vwin wa = place(A, pl), wb = place(A, pl == 0 ? 0 : (pl % 3) + 1);
+    vwin wa = place(A, pl), wb = place(A, pl2);
     uint64_t ne = 0; char sig[64];
     /* equal matrices */
     if (!mzd_equal(wa.view, wb.view)) vx_fail("mzd_equal", "equal-matrices", "%dx%d base %d placement %d: equal matrices reported different", r, c, base, pl);
@@ -112,7 +114,7 @@ static void mode_pivot(void) {
   static const int CS[] = {1, 63, 64, 65, 127, 128, 129, 130, 192, 200};
   int R = 5;
   for (int ci = 0; ci < 10; ci++) { int c = CS[ci];
-    for (int i = 0; i < R; i++) for (int j = 0; j < c; j++) for (int pl = 0; pl < (vx_tier ? 4 : 2); pl++) {
+    for (int i = 0; i < R; i++) for (int j = 0; j < c; j++) for (int pl = 0; pl < (vx_tier ? 5 : 2); pl++) {
       vx_group();
       /* single entry at (i,j); second entry in a different column from a boundary set */
       int seconds[12], ns = 0; seconds[ns++] = -1;
@@ -137,7 +139,7 @@ static void mode_pivot(void) {
       }
     }
     /* dense and zero */
-    for (int p = 0; p < 3; p++) for (int pl = 0; pl < 4; pl++) {
+    for (int p = 0; p < 3; p++) for (int pl = 0; pl < 5; pl++) {
       if (!vx_case_begin("find_pivot|%dx%d|dense=%d|placement=%d", R, c, p, pl)) continue;
       pm *M = pm_pat(R, c, p == 0 ? (pat){P_Z, 0, 0} : p == 1 ? (pat){P_PR, 1, 5} : (pat){P_PR, 0, 6});
       vwin w = place(M, pl); uint64_t ne = 0;
